@@ -236,6 +236,9 @@ class Classifier:
             if neg:
                 big, small = small, big  # not (a > b)  ==  b >= a
             qb, qs = self.scalar(big), self.scalar(small)
+            # a magnitude (abs / norm / radius) is never below a negated tolerance or a negative constant: such a test cannot fire
+            if qs.kind in ("UNDER", "OVER", "DIST") and isinstance(big, ast.UnaryOp) and isinstance(big.op, ast.USub) and (isinstance(big.operand, ast.Attribute) or (isinstance(big.operand, ast.Constant) and isinstance(big.operand.value, (int, float)))):
+                return ("NOTHING", f"`{unparse(e)}` asks whether a non-negative magnitude is below `{unparse(big)}`: it never is, so this test proves nothing (and never fires)")
             if qb.kind == "UNK" or qs.kind == "UNK":
                 return ("UNKNOWN", f"`{unparse(e)}`: cannot classify {unparse(big) if qb.kind == 'UNK' else unparse(small)}")
             if (qb.kind == "DIST" and qs.kind == "OVER") or (qb.kind == "UNDER" and qs.kind == "DIST"):
